@@ -34,6 +34,10 @@ def _key(rng):
     return "".join(rng.choice(KEYCH) for _ in range(rng.randint(0, 4)))
 
 
+class _Own(Exception):
+    """the decorated function's own failure"""
+
+
 def gen_cases(rng, tier):
     cases = []
     n = 500 if tier == "quick" else 3000
@@ -75,6 +79,9 @@ def gen_cases(rng, tier):
                 cases.append({"kind": "decor", "how": how, "deco": deco, "calls": 3, "conc": True})
     for deco in ["cache", "early", "soft", "hit"]:      # ANOTHER backend (registered under a prefix the function's keys do not have) is disabled: nothing changes for this one
         cases.append({"kind": "decor", "how": "other_disabled", "deco": deco, "calls": 3})
+    for how in ["full", "disabling"]:      # limiters and the breaker count nothing when the cache is disabled: every call runs, a failing function's own exception reaches the caller
+        for deco in ["breaker_raise", "rate", "slide", "breaker"]:
+            cases.append({"kind": "decor", "how": how, "deco": deco, "calls": 3})
     for how in ["full", "disabling"]:      # the lock decorators guard nothing when the cache is disabled, and never refuse a call
         for deco in ["locked", "locked_nowait"]:
             cases.append({"kind": "decor", "how": how, "deco": deco, "calls": 3})
@@ -272,7 +279,9 @@ def run_impl(case):
                 n = {"n": 0}
                 deco = {"cache": cache(ttl=100), "early": cache.early(ttl=100, early_ttl=50), "soft": cache.soft(ttl=100, soft_ttl=50),
                         "hit": cache.hit(ttl=100, cache_hits=10), "failover": None,
-                        "locked": cache.locked(ttl=10), "locked_nowait": cache.locked(ttl=10, wait=False)}[case["deco"]]
+                        "locked": cache.locked(ttl=10), "locked_nowait": cache.locked(ttl=10, wait=False),
+                        "breaker": cache.circuit_breaker(errors_rate=50, period=10, ttl=10), "breaker_raise": cache.circuit_breaker(errors_rate=50, period=10, ttl=10),
+                        "rate": cache.rate_limit(limit=1, period=10), "slide": cache.slice_rate_limit(limit=1, period=10)}[case["deco"]]
                 if deco is None:
                     return {"execs": case["calls"], "skip": True}
 
@@ -281,6 +290,8 @@ def run_impl(case):
                     n["n"] += 1
                     if case.get("conc"):
                         await asyncio.sleep(0); await asyncio.sleep(0)
+                    if case["deco"] == "breaker_raise":
+                        raise _Own()
                     return n["n"]
 
                 async def calls():
@@ -290,8 +301,10 @@ def run_impl(case):
                         for _ in range(case["calls"]):
                             try:
                                 await f(1)
-                            except Exception:  # noqa - a refused call is a call that did not execute
+                            except _Own:
                                 pass
+                            except Exception:  # noqa - a refused call did not execute; a call that ends with an exception of the cache's making did not deliver
+                                n["bad"] = n.get("bad", 0) + 1
                 how = case["how"]
                 if how == "other_disabled":
                     cache.setup("mem://?check_interval=0", prefix="off:")
@@ -308,7 +321,7 @@ def run_impl(case):
                         await calls()
                 else:
                     await calls()
-                return {"execs": n["n"]}
+                return {"execs": n["n"] if not n.get("bad") else min(n["n"], case["calls"] - n["bad"])}
             if kind == "ctl":
                 b = cache.setup("mem://?check_interval=0")
                 await cache.init()
